@@ -71,6 +71,18 @@ func c08CheckMsg(w *core.W, m *model.Msg, kind string, exact bool) {
 		wit := map[string]any{"model_wire": hx(m.Wire()), "compress": compress, "kind": kind}
 		var l int
 		var packed []byte
+		if compress && len(m.Wire())%3 == 0 {
+			// (every third message) right after a compressed Pack of the same message that failed at its
+			// last record: nothing that call registered may take part in this one
+			bad, _ := buildMsgAny(m)
+			bad.Compress = true
+			bad.Extra = append(bad.Extra, &dns.A{Hdr: dns.RR_Header{Name: "no-closing-dot.invalid", Rrtype: 1, Class: 1}, A: []byte{192, 0, 2, 1}})
+			w.Guard("Msg.Pack(failing)", wit, func() {
+				if _, e := bad.Pack(); e != nil {
+					w.Count("failed_packs_before_measuring", 1)
+				}
+			})
+		}
 		if w.Guard("Msg.Len", wit, func() { l = built.Len() }) {
 			return
 		}
@@ -253,6 +265,34 @@ func c08General(w *core.W, j int) {
 			m.Ar = append(m.Ar, opt)
 		}
 		c08CheckMsg(w, m, "general", false)
+	}
+	// question names written without the closing dot: if the packer takes them (the pinned one refuses
+	// them with ErrFqdn), Len has to count what it writes
+	for nq := 1; nq <= 2; nq++ {
+		q := new(dns.Msg)
+		for i := 0; i < nq; i++ {
+			q.Question = append(q.Question, dns.Question{Name: fmt.Sprintf("q%d.no-closing-dot.example", i), Qtype: dns.TypeA, Qclass: 1})
+		}
+		for _, compress := range []bool{false, true} {
+			q.Compress = compress
+			var b []byte
+			var e error
+			wit := map[string]any{"questions": nq, "compress": compress}
+			if w.Guard("Msg.Pack(relative question name)", wit, func() { b, e = q.Pack() }) {
+				continue
+			}
+			w.Eval(1)
+			w.Count("relative_question_messages", 1)
+			if e != nil {
+				if isBufErr(e) {
+					w.Violation("C08/pack-no-room/relative-question-name", fmt.Sprintf("%d question(s) named without the closing dot: Pack fails for lack of room: %v", nq, e), wit)
+				}
+				continue
+			}
+			if l := q.Len(); l < len(b) {
+				w.Violation("C08/len-underestimates/relative-question-name", fmt.Sprintf("%d question(s) named without the closing dot: Len()=%d < len(Pack())=%d", nq, l, len(b)), wit)
+			}
+		}
 	}
 	// a message that is packed with its TSIG record in place (relayed or re-packed as received): the key
 	// name shares a suffix with the other names, the TSIG is the last additional record
